@@ -117,7 +117,10 @@ DestructStmt == DestructCall("selfdestruct", Payable(MsgSender))
 
 \* C08: immutable matrix (whole files) -------------------------------------------------------------
 RhsClasses == {<<"literal", Num("7")>>, <<"variable", Var("initial")>>, <<"string", Str("txt")>>,
-               <<"abi", Call(Member(Var("abi"), "encode"), <<Var("initial")>>)>>, <<"bytes", Call(Ty("bytes", 0), <<Str("b")>>)>>}
+               <<"abi", Call(Member(Var("abi"), "encode"), <<Var("initial")>>)>>, <<"bytes", Call(Ty("bytes", 0), <<Str("b")>>)>>,
+               \* value-typed conversions and calls: still values
+               <<"bytes32-conv", Call(Ty("bytesN", 32), <<Var("initial")>>)>>, <<"uint-conv", Call(Ty("uint", 128), <<Var("initial")>>)>>,
+               <<"keccak", CallNamed("keccak256", <<Call(Member(Var("abi"), "encode"), <<Var("initial")>>)>>)>>, <<"sender", MsgSender>>}
 ImmTypes == {<<"uint256", U256>>, <<"address", Ty("address", 0)>>, <<"bool", Ty("bool", 0)>>, <<"bytes32", Ty("bytesN", 32)>>,
              <<"string", Ty("string", 0)>>, <<"bytes", Ty("bytes", 0)>>}
 Elsewhere == {"none", "function", "modifier", "fallback", "compound-in-function", "incr-in-function"}
